@@ -917,12 +917,17 @@ class GSample(GateRef):
 class GSwitchOnNext(GateRef):
     """this crate's switch_on_next(target): mirror the source until the target emits its first item, the target from then on"""
     init = False
-    extra = ("set_flag",)        # the switch is published before the target's item goes out: a source item arriving while that
-                                 # item is being delivered (re-entrantly, or from another thread) is already muted
+    extra = ("set_flag", "abort")  # the switch is published before the target's item goes out: a source item arriving while that
+                                   # item is being delivered (re-entrantly, or from another thread) is already muted; after the
+                                   # switch the source is released as soon as it shows itself again (its events cannot occur afterwards)
 
     def step(self, st, ev):
+        if isinstance(st, tuple):              # (switched, source released)
+            if ev.startswith("S."):
+                return None
+            st = st[0]
         if ev == "S.N":
-            return (() if st else (("emit", "item"),)), st, False
+            return ((("abort",),), (True, True), False) if st else ((("emit", "item"),), st, False)
         if ev == "T.N":
             return (("set_flag",), ("emit", "item")), True, False
         return {"S.E": ((("error",),), st, True), "T.E": ((("error",),), st, True),
@@ -1141,7 +1146,10 @@ def amb_rule(P, E, H):
                 nxt = []
                 for ((ist, win), hist) in frontier:
                     state = dict(ist)
+                    win, cut = (win if isinstance(win, tuple) else (win, frozenset()))
                     for who, key in (("a", ka), ("b", kb)):
+                        if who in cut:
+                            continue          # a loser that has been cut is unsubscribed: it cannot signal again
                         for role in ("N", "E", "C"):
                             Sm = S[role]
                             sigma = dict(state)
@@ -1158,11 +1166,12 @@ def amb_rule(P, E, H):
                                 raise Undecided("no feasible path for %s of input %s" % (role, who))
                             w2 = win or who
                             mirrored = (w2 == who)
-                            want = {"N": (("emit", "item"),), "E": (("error",),), "C": (("complete",),)}[role] if mirrored else ()
+                            # a loser is cut (its own upstream aborted) the moment it shows itself - "at the latest when it next tries to emit"
+                            want = {"N": (("emit", "item"),), "E": (("error",),), "C": (("complete",),)}[role] if mirrored else (("abort",),)
                             done_ = mirrored and role in ("E", "C")
                             for (tr, nx), (p, newcells) in outs.items():
                                 steps += 1
-                                ntr = _norm_trace(tr)
+                                ntr = _norm_trace(tr, ("abort",))
                                 if ntr != want:
                                     kind = "%s of %s after %s" % (role, "the winner" if mirrored else "a loser", "/".join(hist[-2:]) or "start")
                                     if kind not in reported:
@@ -1178,7 +1187,7 @@ def amb_rule(P, E, H):
                                 ns = dict(state)
                                 for g, v in newcells.items():
                                     ns[Sm.cellsym(g)] = v
-                                key2 = (tuple(sorted(ns.items())), w2)
+                                key2 = (tuple(sorted(ns.items())), (w2, cut if mirrored else cut | {who}))
                                 if key2 not in seen:
                                     seen.add(key2)
                                     nxt.append((key2, hist + ("%s.%s" % (who, role),)))
